@@ -22,7 +22,7 @@ func verifMkMatch(i string) Match {
 	m.Name = verifAtomNS("name"+i, 1, 2, "")
 	m.Kind = verifAtom("kind"+i, 0, "", "alerting", "recording")
 	// which optional (pointer/slice) conditions are present is a job parameter (bit mask), so shapes run in parallel
-	shape := verifParam("shape" + i[:1])
+	shape := verifParam("shape" + i)
 	if shape&1 != 0 {
 		c := ContextCommandVal(verifAtom("cmd"+i, 0, "ci", "lint", "watch"))
 		m.Command = &c
